@@ -148,6 +148,10 @@ func (u *udpDriver) handleProbeLayers() (*common.ProbeResponse, error) {
 		if err != nil {
 			return nil, &common.BadPacketError{Err: fmt.Errorf("udpDriver failed to get ICMP info: %w", err)}
 		}
+		if icmpInfo.WrappedProtocol != layers.IPProtocolUDP {
+			log.Tracef("udpDriver ignored ICMP packet which quotes another protocol: %s", icmpInfo.WrappedProtocol)
+			return nil, common.ErrPacketDidNotMatchTraceroute
+		}
 
 		// make sure the source/destination match
 		udpInfo, err := packets.ParseUDPFirstBytes(icmpInfo.Payload)
